@@ -68,7 +68,7 @@ def grid():
     G = []
     inf = math.inf
     def C(s, p, ref, lo=-inf, hi=inf, mom=True): G.append(dict(s=s, p=p, kind="c", ref=ref, lo=lo, hi=hi, mom=mom))
-    def D(s, p, ref, lo=0, hi=inf, only=None): G.append(dict(s=s, p=p, kind="d", ref=ref, lo=lo, hi=hi, only=only))
+    def D(s, p, ref, lo=0, hi=inf, only=None, zeros=None): G.append(dict(s=s, p=p, kind="d", ref=ref, lo=lo, hi=hi, only=only, zeros=zeros))
     def S(s, p, lo, hi, integer=False): G.append(dict(s=s, p=p, kind="s", ref=None, lo=lo, hi=hi, integer=integer))
     C("random", [], stats.uniform(0, 1), 0, 1)
     C("uniform", [-3, 5], stats.uniform(-3, 8), -3, 5)
@@ -171,6 +171,13 @@ def grid():
         pm = np.array(v) / sum(v)
         D("loaded_dice", vec(*v), ("pmf", pm), 0, len(v) - 1)
         D("alias", vec(*v), ("pmf", pm), 0, len(v) - 1)
+    # a long table read from a file with six decimals (the sum is short of one by 7.5e-4, inside the tolerance), the first three alternatives retired
+    rv = np.floor(rng.dirichlet(np.ones(1497) * 3.0) * 1e6) / 1e6
+    v = [0.0, 0.0, 0.0] + list(rv); pm = np.array(v) / sum(v)
+    D("alias", vec(*v), ("pmf_loose", pm), 0, len(v) - 1, zeros=[0, 1, 2])
+    D("loaded_dice", vec(*v), ("pmf_loose", pm), 0, len(v) - 1, zeros=[0, 1, 2])
+    v = list(np.floor(rng.dirichlet(np.ones(997) * 3.0) * 1e6) / 1e6) + [0.0, 0.0, 0.0]; pm = np.array(v) / sum(v)
+    D("alias", vec(*v), ("pmf_loose", pm), 0, len(v) - 1, zeros=[997, 998, 999])
     # sums within the accepted 1e-3 tolerance but not exactly one: index must stay valid
     for v in ([0.3, 0.3, 0.3995], [0.5, 0.4991], [0.2] * 4 + [0.1996], [0.3, 0.3, 0.4005], [0.9992], [1.0008],
               [1 / 3, 1 / 3, 1 / 3], [0.1] * 10, [1 / 7] * 7, [0.3333, 0.3333, 0.3333]):
@@ -225,6 +232,8 @@ def support_check(x, g):
         bad |= (np.floor(x) != x)
     if g.get("only") is not None:
         bad |= (x != g["only"])
+    if g.get("zeros") is not None:
+        bad |= np.isin(x, g["zeros"])          # alternatives of probability zero are outside the support
     idx = np.flatnonzero(bad)
     if len(idx):
         return int(len(idx)), float(x[idx[0]]), int(idx[0])
